@@ -122,6 +122,27 @@ def _subst(nodes, mapping):
 
 
 # ------------------------------------------------------------------------------------------------ statement level
+def _expand_kwargs_comprehension(kw: ast.keyword):
+    """keywords of `**{k: e for k in <literal tuple of identifier strings>}`, or None"""
+    d = kw.value
+    if isinstance(d, ast.Dict) and all(isinstance(k, ast.Constant) and isinstance(k.value, str) and k.value.isidentifier() for k in d.keys):
+        return [ast.copy_location(ast.keyword(arg=k.value, value=v), kw.value) for k, v in zip(d.keys, d.values)]
+    if not isinstance(d, ast.DictComp) or len(d.generators) != 1:
+        return None
+    g = d.generators[0]
+    if g.ifs or g.is_async or not isinstance(g.target, ast.Name) or not isinstance(g.iter, (ast.Tuple, ast.List)):
+        return None
+    if not (isinstance(d.key, ast.Name) and d.key.id == g.target.id):
+        return None
+    if not all(isinstance(e, ast.Constant) and isinstance(e.value, str) and e.value.isidentifier() for e in g.iter.elts):
+        return None
+    names = [e.value for e in g.iter.elts]
+    if len(set(names)) != len(names):
+        return None
+    return [ast.copy_location(ast.keyword(arg=e.value, value=_Subst({g.target.id: e}).visit(copy.deepcopy(d.value))), kw.value)
+            for e in g.iter.elts]
+
+
 class _StmtCanon(ast.NodeTransformer):
     def __init__(self, module_consts: dict[str, ast.AST]):
         self.consts = module_consts
@@ -129,6 +150,13 @@ class _StmtCanon(ast.NodeTransformer):
 
     # --- expressions
     def visit_Call(self, n):
+        # f(**{k: e(k) for k in ("a", "b")})  ->  f(a=e("a"), b=e("b"))  (a table-driven keyword list is the keyword list)
+        if any(kw.arg is None for kw in n.keywords):
+            kws = []
+            for kw in n.keywords:
+                exp = _expand_kwargs_comprehension(kw) if kw.arg is None else None
+                kws.extend(exp if exp is not None else [kw])
+            n.keywords = kws
         self.generic_visit(n)
         if isinstance(n.func, ast.Lambda) and not n.keywords and len(n.args) == len(n.func.args.args) and not n.func.args.vararg \
                 and not n.func.args.kwonlyargs and all(isinstance(a, (ast.Name, ast.Constant)) for a in n.args):
@@ -192,6 +220,8 @@ class _StmtCanon(ast.NodeTransformer):
         for i, st in enumerate(body):
             r = self._one(st, body[:i])
             out.extend(r)
+        if len(out) > 1 and any(isinstance(s, ast.Pass) for s in out):
+            out = [s for s in out if not isinstance(s, ast.Pass)] or out[:1]  # `pass` next to other statements says nothing
         return out
 
     def generic_visit(self, node):
@@ -283,8 +313,10 @@ class _StmtCanon(ast.NodeTransformer):
                 return None
             items = [{kname: k, vname: v} for k, v in zip(lit.keys, lit.values)]
         else:
-            if not isinstance(lit, (ast.Tuple, ast.List)) or not lit.elts or len(lit.elts) > 16:
+            if not isinstance(lit, (ast.Tuple, ast.List)) or len(lit.elts) > 16:
                 return None
+            if not lit.elts:  # a loop over the empty display runs no statement
+                return [ast.copy_location(ast.Pass(), st)]
             if isinstance(st.target, ast.Name):
                 if not all(_pure_elem(e) for e in lit.elts):
                     return None
@@ -512,6 +544,12 @@ def canonical_stmts(tree: ast.Module) -> ast.Module:
     return ast.fix_missing_locations(tree)
 
 
+def recanonicalise_function(fn: ast.FunctionDef) -> ast.FunctionDef:
+    """statement normal forms once more for one function (after program-level passes exposed new literal tables)"""
+    _StmtCanon({}).visit(fn)
+    return ast.fix_missing_locations(fn)
+
+
 # ------------------------------------------------------------------------------------------------ inlining
 _ANCHORS: set[str] | None = None
 
@@ -642,12 +680,28 @@ class Inliner:
                     rm, fn = r
                     bound = {a.arg for a in fn.args.args + fn.args.kwonlyargs} | _assigned_names(fn.body)
                     import builtins as _b
+                    adopt: dict[str, str] = {}
+                    top = getattr(module, "_toplevel_names", None)
+                    if top is None:
+                        top = set(module.classes) | set(module.functions) | _assigned_names([st_ for st_ in module.tree.body
+                                                                                               if not isinstance(st_, (ast.FunctionDef, ast.ClassDef))])
+                        module._toplevel_names = top
                     for n in ast.walk(fn):
                         if isinstance(n, ast.Name) and isinstance(n.ctx, ast.Load) and n.id not in bound and not hasattr(_b, n.id):
                             here = module.imports.get(n.id)
                             there = rm.imports.get(n.id)
-                            if here is None or here != there:
+                            if there is None and (n.id in rm.functions or n.id in rm.classes):
+                                there = f"{rm.name}.{n.id}"  # a sibling definition of the helper's module
+                            if there is None:
                                 return None
+                            if here is None and n.id not in top and adopt.get(n.id, there) == there:
+                                # the caller's module does not bind the name at all: inlining the helper there amounts to adding the
+                                # helper module's import, which changes nothing else
+                                adopt[n.id] = there
+                                continue
+                            if here != there:
+                                return None
+                    module.imports.update(adopt)
                     return None, fn, None
         return None
 
@@ -724,7 +778,8 @@ class Inliner:
         if body and isinstance(body[0], ast.Expr) and isinstance(body[0].value, ast.Constant) and isinstance(body[0].value.value, str):
             body = body[1:]
         tag = next(_ctr)
-        assigned = _assigned_names(body)
+        # names a synthesized callee shares with its caller's scope (flatten.py: the fields of a dissolved local object)
+        assigned = _assigned_names(body) - set(getattr(fn, "_caller_scope", ()))
         pre = []
         mapping: dict[str, ast.AST] = dict(bind)
         # the callee's returned locals take the names of the variables the call assigns to, when that cannot capture:
@@ -905,6 +960,13 @@ class Inliner:
                         lead, expr = cond
                         st.test = ast.copy_location(expr if inner is st.test else ast.UnaryOp(op=ast.Not(), operand=expr), st.test)
                         return lead + [ast.fix_missing_locations(st)]
+        # a multi-statement helper called inside a larger expression (`return jnp.array(h(model))`): evaluate it into a temporary
+        # first, when nothing else in the statement can observe the difference (every other call of the statement encloses it)
+        if isinstance(st, (ast.Expr, ast.Assign, ast.Return)) and st.value is not None and not isinstance(st.value, ast.Call) or \
+                (isinstance(st, (ast.Expr, ast.Assign, ast.Return)) and isinstance(st.value, ast.Call) and self._resolve(st.value, owner, module) is None):
+            hoisted = self._hoist_nested(st, owner, module)
+            if hoisted is not None:
+                return self._stmts(hoisted, owner, module, names, depth)
         call = None
         if isinstance(st, ast.Expr) and isinstance(st.value, ast.Call):
             call, want = st.value, False
@@ -934,6 +996,42 @@ class Inliner:
         new = [ast.fix_missing_locations(ast.copy_location(s, st) if not hasattr(s, "lineno") else s) for s in new]
         # helpers calling helpers
         return self._stmts(new, owner, module, names, depth + 1)
+
+
+def _hoist_nested(self, st, owner, module):
+    root = st.value
+    calls = [n for n in ast.walk(root) if isinstance(n, ast.Call)]
+    for c in calls:
+        if c is root:
+            continue
+        r = self._resolve(c, owner, module)
+        if r is None or not self._inlinable(r[1]):
+            continue
+        body = r[1].body
+        if body and isinstance(body[0], ast.Expr) and isinstance(body[0].value, ast.Constant):
+            body = body[1:]
+        if len(body) <= 1:
+            continue  # an expression helper: substituted in place elsewhere
+        inside = {id(n) for n in ast.walk(c)}
+        others = [o for o in calls if id(o) not in inside]
+        if not all(any(n is c for n in ast.walk(o)) for o in others):
+            continue
+        # not under anything evaluated conditionally or repeatedly
+        bad = False
+        for n in ast.walk(root):
+            if isinstance(n, (ast.IfExp, ast.BoolOp, ast.Lambda, ast.ListComp, ast.SetComp, ast.DictComp, ast.GeneratorExp, ast.NamedExpr)) \
+                    and any(m is c for m in ast.walk(n)):
+                bad = True
+        if bad or any(isinstance(n, (ast.Await, ast.Yield, ast.YieldFrom)) for n in ast.walk(root)):
+            continue
+        tmp = f"hoisted__i{next(_ctr)}"
+        pre = ast.copy_location(ast.Assign(targets=[ast.Name(id=tmp, ctx=ast.Store())], value=c), st)
+        _replace_node(st, c, ast.copy_location(ast.Name(id=tmp, ctx=ast.Load()), c))
+        return [ast.fix_missing_locations(pre), ast.fix_missing_locations(st)]
+    return None
+
+
+Inliner._hoist_nested = _hoist_nested
 
 
 def _flag_condition(stmts, flag):
